@@ -77,6 +77,56 @@ fn all_trees<'a>(p: &Pattern, seq: &[&'a str], calls: &mut u64) -> Vec<Option<&'
     out
 }
 
+fn fold_left<'a>(p: &Pattern, l: &[&'a str]) -> Option<&'a str> {
+    let mut acc = p.best_match(l[0], l[0]);
+    for x in &l[1..] {
+        acc = match (acc, p.best_match(x, x)) {
+            (None, r) => r,
+            (a, None) => a,
+            (Some(a), Some(b)) => p.best_match(a, b),
+        };
+    }
+    acc
+}
+fn fold_right<'a>(p: &Pattern, l: &[&'a str]) -> Option<&'a str> {
+    let mut acc = p.best_match(l[l.len() - 1], l[l.len() - 1]);
+    for x in l[..l.len() - 1].iter().rev() {
+        acc = match (p.best_match(x, x), acc) {
+            (None, r) => r,
+            (a, None) => a,
+            (Some(a), Some(b)) => p.best_match(a, b),
+        };
+    }
+    acc
+}
+fn balanced<'a>(p: &Pattern, l: &[&'a str]) -> Option<&'a str> {
+    if l.len() == 1 {
+        return p.best_match(l[0], l[0]);
+    }
+    let (a, b) = l.split_at(l.len() / 2);
+    match (balanced(p, a), balanced(p, b)) {
+        (None, r) => r,
+        (a, None) => a,
+        (Some(a), Some(b)) => p.best_match(a, b),
+    }
+}
+
+fn check_long(run: &Run, t: &mut Tally, ps: &str, p: &Pattern, list: &[&str]) {
+    t.states += 1;
+    t.evals += 3;
+    t.validated += 3;
+    t.transitions += 3 * list.len() as u64;
+    let want = model_winner(ps, list, LetterWeight::Rank);
+    let alt = model_winner(ps, list, LetterWeight::AsciiLower);
+    let got = guard(|| [fold_left(p, list), fold_right(p, list), balanced(p, list)]);
+    match got {
+        Ok(g) if g.iter().all(|x| *x == want) => t.outcome("long-list/ok"),
+        Ok(g) if g.iter().all(|x| *x == alt) && run.finding_open(FINDING) => t.known(FINDING, || json!({"pattern": ps, "list": list})),
+        other => t.violation(Violation::new("list", json!({"pattern": ps, "list": list}), json!(want), json!(format!("{:?}", other)), "long candidate list: reduction winner differs from the model or between reduction orders")),
+    }
+    t.nontrivial += 1;
+}
+
 fn check_pair(run: &Run, t: &mut Tally, ps: &str, p: &Pattern, a: &str, b: &str) {
     t.evals += 1;
     t.validated += 1;
@@ -185,7 +235,11 @@ fn replay(run: &Run, doc: &Value) -> Option<Violation> {
         Some("pair") => check_pair(run, &mut t, ps, &p, c["pkg1"].as_str().unwrap_or(""), c["pkg2"].as_str().unwrap_or("")),
         _ => {
             let list: Vec<&str> = c["list"].as_array().map(|a| a.iter().filter_map(|x| x.as_str()).collect()).unwrap_or_default();
-            check_list(run, &mut t, ps, &p, &list);
+            if list.len() > 5 {
+                check_long(run, &mut t, ps, &p, &list);
+            } else {
+                check_list(run, &mut t, ps, &p, &list);
+            }
         }
     }
     t.violations.into_iter().next()
@@ -232,5 +286,23 @@ fn main() {
             t.sample(run.seed, s.iter().fold(1u64, |a, x| a * 19 + *x as u64), || json!({"pattern": ps, "list": list}));
         });
     }
+    // scale: long candidate lists (rotations of the pool, 8..64 names) reduced left-to-right,
+    // right-to-left and as a balanced tree
+    run.bound("scale: for each pattern, every rotation and its reversal of pool-derived lists of 8, 16, 27 and 64 candidates, reduced left-to-right, right-to-left and as a balanced tree");
+    let mut t = Tally::new();
+    for (ps, p) in &pats {
+        for len in [8usize, 16, 27, 64] {
+            for rot in 0..POOL.len() {
+                for rev in [false, true] {
+                    let mut list: Vec<&str> = (0..len).map(|i| POOL[(rot + i * 5) % POOL.len()]).collect();
+                    if rev {
+                        list.reverse();
+                    }
+                    check_long(&run, &mut t, ps, p, &list);
+                }
+            }
+        }
+    }
+    run.merge(t);
     run.finish();
 }
